@@ -114,7 +114,7 @@ def replay(pid, path):
         if "requests" not in f or "config" not in f:
             continue
         kv = dict(x.split("=") for x in f["config"].split())
-        ok, exe, log = k5.harness_for(int(kv["S"]), int(kv["M"]), int(kv["TMOVE"]))
+        ok, exe, log = k5.harness_for(int(kv["S"]), int(kv["M"]), int(kv["TMOVE"]), int(kv.get("BYVAL", 0)))
         if not ok:
             print(log)
             return 2
